@@ -747,7 +747,8 @@ fn oracle_after<S: TStore>(s: &Sys<S>, cl: &mut Client, cm: &Commits, pre_view: 
             }
             cl.checks += 1;
             match r1 {
-                Err(PErr::WalTailNotClean) => {}
+                // fail-closed: an uncommitted or torn tail obstructs admission until WAL recovery
+                Err(PErr::WalTailNotClean) | Err(PErr::WalStore(_)) => {}
                 Ok(c1) => {
                     if full_view(&c1, &ids, cm) != pre_view {
                         cl.flag(format!("partial-transaction-visible[{tag}]:{what}:{label}"));
